@@ -237,6 +237,7 @@ def field(draw, dspec, field_units, kinds=("zero", "float", "constant", "gauge_p
     out = dict(kind=k, B=B)
     if k in ("ramp", "ramp_gauge"):
         out["tmax"] = draw(rf(0.05, 3.0))
-        out["initial"] = draw(st.sampled_from([0.0, 0.0, 0.5]))
-        out["final"] = draw(st.sampled_from([1.0, 1.0, -1.0]))
+        out["initial"] = draw(st.sampled_from([0.0, 0.0, 0.5, 1.0]))
+        # also slow ramps: the potential changes by a tiny relative amount per step
+        out["final"] = draw(st.sampled_from([1.0, 1.0, -1.0, out["initial"] + 1e-3, out["initial"] + 2e-5]))
     return out
